@@ -382,7 +382,7 @@ package connect
 //@   ensures owned(compressor) == old(owned(compressor))
 
 //@ func (*compressionPool).Compress(c, dst, src) res
-//@   tags C08, C01
+//@   tags C08, C01, C05, C04
 //@   requires c != nil && dst != nil && src != nil && dst != src && owned(dst) && owned(src)
 //@   assigns view(dst), view(src)
 //@   ensures res == nil ==> view(dst) == old(view(dst)) ++ compBy(c.compressors, old(view(src)))     // label: appends-compressed-source
